@@ -178,9 +178,13 @@ class Report:
             kf = [k for k in known_findings(self.prop) if k['id'] == fid]
             what = kf[0]['what'] if kf else ''
             lines.append('KNOWN-FINDING: property=%s %s %s (%d cases)' % (self.prop, fid, what, n))
+        rdir = os.path.join(VERIF, 'replays', self.prop)
+        if os.path.isdir(rdir) and self.technique != 'replay':
+            for fn in os.listdir(rdir):            # replay files of earlier runs would only mislead
+                if fn.endswith('.json'):
+                    os.remove(os.path.join(rdir, fn))
         if self.violations:
             rc = 1
-            rdir = os.path.join(VERIF, 'replays', self.prop)
             os.makedirs(rdir, exist_ok=True)
             seen = set()
             for v in self.violations[:20]:
